@@ -119,6 +119,9 @@ def what(tag, toks, d):
     op = fmt_op(sp[2][step][0]) if sp and 0 <= step < len(sp[2]) else "?"
     if len(d) > 3 and d[2] == 5:
         cname = {0: "ok", 1: "resource-limit sentinel", 2: "scope closed", 3: "plain error (no sentinel)", 4: "per-IP cap"}.get(d[3], d[3])
+        if d[3] == 4:
+            return ("step %d %s refused by the per-subnet limiter although the network prefix that governs the endpoint and all its "
+                    "subnets have room (counting the connections the history has open): the limiter's counts are not the open connections" % (step, op))
         return ("step %d %s answered '%s': an operation may be refused only with an error wrapping the resource-limit sentinel, "
                 "unless a closed scope / owner or a caller error (second attach, negative size) explains it" % (step, op, cname))
     return "%s after step %d %s (diag %s)" % (CLAUSE.get(d[2] if len(d) > 2 else 0, "?"), step, op, d[3:22])
